@@ -87,7 +87,11 @@ def draw_record(rng, big):
     return {"k": rng.randrange(1 << 30), "n": n, "rate": rate,
             # raw digitiser counts next to records in physical units: amplitude scales far apart are legal
             "scale": rng.choice([1.0] * 6 + [1e9, 1e-9, 1e6, 1e-12]),
-            "deg": rng.choice([0.0, 0.0, 15.0, 270.0]), "meta": {"site": rng.choice(["A", "B"]), "tags": [1, 2]}}
+            "deg": rng.choice([0.0, 0.0, 15.0, 270.0]),
+            # recordings read from three one-component files carry a LIST of file names; from one file a string
+            "meta": {"site": rng.choice(["A", "B"]), "tags": [1, 2],
+                     "file name(s)": rng.choice([None, "st%d.mseed" % rng.randrange(9),
+                                                 ["st%d_%s.sac" % (rng.randrange(9), c) for c in "ENZ"]])}}
 
 
 def generate(seed, prop):
@@ -181,6 +185,15 @@ def generate(seed, prop):
                          "site": rng.choice(["rfft", "rfft", "smooth", "window"]), "at": rng.randrange(0, 9)},
                         {"op": "process", "recs": b, "s": k, "own": True},
                         {"op": "repeat", "which": 0, "tag": "A"}]
+    if not own and rng.random() < 0.2:
+        # biased schedule (C03): the caller processes its own objects, re-orients / edits one of them in place and
+        # processes again - the second result must be that of the recording as it is now
+        k = rng.randrange(n_set)
+        a = rng.sample(range(n_rec), rng.randint(1, n_rec))
+        pos = rng.randint(0, len(ops))
+        ops[pos:pos] = [{"op": "process", "recs": a, "s": k, "own": True, "as_tuple": False},
+                        {"op": "mutate_record", "i": rng.choice(a), "how": rng.choice(["orient", "orient", "scale_inplace", "assign_array"])},
+                        {"op": "process", "recs": a, "s": k, "own": False, "as_tuple": False}]
     if many:
         ops = [{"op": "process", "recs": rng.sample(range(n_rec), n_rec) if rng.random() < 0.5 else list(range(n_rec)),
                 "s": rng.randrange(n_set), "own": False, "as_tuple": False}]
@@ -227,7 +240,8 @@ def make_record(H, spec):
     for c in range(3):
         x = g.normal(0, 1, n) + (2.0 if c < 2 else 0.5) * np.sin(2 * np.pi * (1.5 + 0.3 * c) * t)
         comps.append(H.TimeSeries(x * float(spec.get("scale", 1.0)), dt))
-    return H.SeismicRecording3C(*comps, degrees_from_north=spec["deg"], meta=copy.deepcopy(spec["meta"]))
+    meta = {k: v for k, v in copy.deepcopy(spec["meta"]).items() if v is not None}
+    return H.SeismicRecording3C(*comps, degrees_from_north=spec["deg"], meta=meta)
 
 
 def make_settings(H, s, fft_n="spec"):
@@ -467,7 +481,12 @@ def solo_rows(st, record, spec, n):
            canon({k: v for k, v in spec.items() if k not in ("policy", "fft_n")}), n)
     if key not in st.solo_cache:
         try:
-            res = _process(H, [copy.deepcopy(record)], make_settings(H, spec, fft_n=n))
+            # the reference recording is built from the bare samples: nothing an earlier call may have left on the
+            # pool object (memoised spectra, say) can reach it
+            fresh = H.SeismicRecording3C(*[H.TimeSeries(np.array(getattr(record, c_).amplitude, dtype=float),
+                                                        getattr(record, c_).dt_in_seconds) for c_ in ("ns", "ew", "vt")],
+                                         degrees_from_north=record.degrees_from_north, meta=copy.deepcopy(record.meta))
+            res = _process(H, [fresh], make_settings(H, spec, fft_n=n))
             st.solo_cache[key] = rows_of(H, res)
         except Exception:                      # noqa
             st.solo_cache[key] = None          # the solo result is refused (result validation, …)
